@@ -179,7 +179,13 @@ func (cc *ClientConnection) startTls(conn streams.Connection) (streams.Connectio
 	} else {
 		tlsConfig = &tls.Config{}
 	}
-	tlsConfig.ServerName = cc.host
+	// Upstreams pass the address as "host:port"; certificates are issued for (and must be
+	// verified against) the host name alone.
+	serverName := cc.host
+	if h, _, err := net.SplitHostPort(serverName); err == nil {
+		serverName = h
+	}
+	tlsConfig.ServerName = serverName
 
 	log.Tracef("[Client] Executing TLS handshake")
 	tlsConn := tls.Client(conn, tlsConfig)
